@@ -6,9 +6,10 @@ Steps: (1) in the scratch worktree /tmp/mut/<Cxx>: demo fails with the patch, re
 import os, sys, json, subprocess, shutil, time
 pid, mk = sys.argv[1], sys.argv[2]
 extra = sys.argv[3:]
-src = "/tmp/mut/out/%s/%s" % (pid, mk)
-wt = "/tmp/mut/%s" % pid
-dst = "/verif/seeded/%s-%s" % (pid, mk)
+base = os.environ.get("MUT_BASE", "/tmp/mut")
+src = "%s/out/%s/%s" % (base, pid, mk)
+wt = "%s/%s" % (base, pid)
+dst = "/verif/seeded/%s-%s%s" % (pid, os.environ.get("MUT_TAG", ""), mk)
 def sh(cmd, cwd=None, timeout=3600):
     r = subprocess.run(cmd, shell=True, cwd=cwd, stdout=subprocess.PIPE, stderr=subprocess.STDOUT, text=True, timeout=timeout)
     return r.returncode, r.stdout
